@@ -63,6 +63,7 @@ type Env struct {
 	locals   func(e *Env, name string) (TV, bool) // late-bound lookup of program variables (loop invariants, captured variables)
 	facts    *[]Term                      // heap well-formedness facts about values read (hoistable ones only)
 	entry    map[string]TV                // entry values of parameters that were reassigned (visible through old(...))
+	cellPtr  func(name string) (Term, types.Type, bool) // address of a captured variable (frame / guarded targets)
 }
 
 func (e *Env) child() *Env {
@@ -822,7 +823,7 @@ func (e *Env) trIndex(x *ast.IndexExpr) TV {
 		case *types.Map:
 			ks, vs := sortOf(u.Key()), sortOf(u.Elem())
 			mv := vc.hget(e.heap, mapValArr(ks, vs), fmt.Sprintf("(Array Int (Array %s %s))", ks, vs))
-			md := vc.hget(e.heap, mapDomArr(ks), mapDomSort(ks))
+			md := vc.hget(e.heap, mapDomArr(ks, vs), mapDomSort(ks))
 			// Go semantics: a missing key (or a nil map) reads as the zero value
 			present := and(not(eq(a.T, "0")), app("select", app("select", md, a.T), i.T))
 			return TV{T: app("ite", present, app("select", app("select", mv, a.T), i.T), zeroOf(vs, vc.d)), S: goSType(u.Elem())}
@@ -835,7 +836,7 @@ func (e *Env) trIndex(x *ast.IndexExpr) TV {
 func elemsArr(es Sort) string  { return "Elems_" + sortID(es) }
 func elemsSort(es Sort) Sort   { return fmt.Sprintf("(Array Int (Array Int %s))", es) }
 func cellArr(s Sort) string    { return "Cell_" + sortID(s) }
-func mapDomArr(k Sort) string  { return "MapDom_" + sortID(k) }
+func mapDomArr(k, v Sort) string { return "MapDom_" + sortID(k) + "_" + sortID(v) }
 func mapValArr(k, v Sort) string { return "MapVal_" + sortID(k) + "_" + sortID(v) }
 func mapDomSort(k Sort) Sort   { return fmt.Sprintf("(Array Int (Array %s Bool))", k) }
 func mapValSort(k, v Sort) Sort { return fmt.Sprintf("(Array Int (Array %s %s))", k, v) }
@@ -972,6 +973,13 @@ func (e *Env) trCall(x *ast.CallExpr) TV {
 		case "Str":
 			return TV{T: app("strlen", v.T), S: stInt}
 		}
+		if v.S.Go != nil {
+			if mt, ok := types.Unalias(v.S.Go).Underlying().(*types.Map); ok {
+				ks, vs := sortOf(mt.Key()), sortOf(mt.Elem())
+				md := vc.hget(e.heap, mapDomArr(ks, vs), mapDomSort(ks))
+				return TV{T: app("ite", eq(v.T, "0"), "0", app(vc.maplenFun(ks), app("select", md, v.T))), S: stInt}
+			}
+		}
 		e.fail(x, "len of %s", v.S.Sort)
 	case "store":
 		m := e.tr(arg(0))
@@ -991,7 +999,7 @@ func (e *Env) trCall(x *ast.CallExpr) TV {
 		if m.S.Go != nil {
 			if mt, ok := types.Unalias(m.S.Go).Underlying().(*types.Map); ok {
 				ks := sortOf(mt.Key())
-				md := vc.hget(e.heap, mapDomArr(ks), mapDomSort(ks))
+				md := vc.hget(e.heap, mapDomArr(ks, sortOf(mt.Elem())), mapDomSort(ks))
 				// a nil map has no entries
 				return TV{T: and(not(eq(m.T, "0")), app("select", app("select", md, m.T), k.T)), S: stBool}
 			}
@@ -1076,6 +1084,14 @@ func (e *Env) trCall(x *ast.CallExpr) TV {
 			e.fail(x, "tag: not a slice")
 		}
 		return TV{T: app("select", app("select", vc.hget(e.heap, "Tags", tagsSort), app("sid", v.T)), app("idx", v.T, i.T)), S: stInt}
+	case "card":
+		// card(set): cardinality of a logical set (Array K Bool), e.g. card(mapdom(m)) == len(m), card(_visited)
+		sv := e.tr(arg(0))
+		parts := arraySorts(sv.S.Sort)
+		if parts == nil || parts[1] != "Bool" {
+			e.fail(x, "card: not a set")
+		}
+		return TV{T: app(vc.maplenFun(parts[0]), sv.T), S: stInt}
 	case "forkarg":
 		// forkarg(k, name): argument "name" given to the k-th forked thread (the function's unique thread closure)
 		kk := e.tr(arg(0))
@@ -1126,7 +1142,7 @@ func (e *Env) trCall(x *ast.CallExpr) TV {
 		}
 		ks, vs := sortOf(mt.Key()), sortOf(mt.Elem())
 		if id.Name == "mapdom" {
-			md := vc.hget(e.heap, mapDomArr(ks), mapDomSort(ks))
+			md := vc.hget(e.heap, mapDomArr(ks, vs), mapDomSort(ks))
 			return TV{T: app("select", md, m.T), S: &SType{Sort: fmt.Sprintf("(Array %s Bool)", ks), Key: goSType(mt.Key()), Elem: stBool}}
 		}
 		mv := vc.hget(e.heap, mapValArr(ks, vs), mapValSort(ks, vs))
